@@ -539,6 +539,32 @@ Section interp.
       | SContinue => Ok (OContinue, r)
       | SExpr e => let* (_, r1) := eval n' e r in Ok (ONormal, r1)
       | SDestroy e => let* (_, r1) := eval n' e r in Ok (ONormal, r1)
+      | SGuard c b =>
+        let* (vc, r1) := eval n' c r in
+        match vc with
+        | VBool true => Ok (ONormal, r1)
+        | VBool false =>
+          let* (o, r2) := exec_block n' b r1 in
+          match o with
+          | ONormal => Err Internal      (* visitGuardElseBlock: UnreachableInstructionError *)
+          | _ => Ok (o, firstn (length r1) r2)
+          end
+        | _ => Err Internal
+        end
+      | SGuardLet e tv b rest =>
+        let* (v0, r1) := eval n' e r in
+        let* v := transfer_check v0 tv tv in
+        match v with
+        | VSome w =>
+          let* (o, r2) := exec_block n' rest (r1 ++ [Some w]) in Ok (o, firstn (length r1) r2)
+        | VNil =>
+          let* (o, r2) := exec_block n' b r1 in
+          match o with
+          | ONormal => Err Internal      (* visitGuardElseBlock: UnreachableInstructionError *)
+          | _ => Ok (o, firstn (length r1) r2)
+          end
+        | _ => Err Internal
+        end
       end
     end
   with for_loop (n : nat) (l : list val) (te : ty) (b : block) (r : env) {struct n}
